@@ -172,13 +172,22 @@ static const struct { int board; uint8_t type; uint8_t d[10]; int dl; } RXB[] = 
 #define N_RXB ((int) (sizeof RXB / sizeof RXB[0]))
 static void queue_rx_batch(void) { for (int i = 0; i < N_RXB; i++) { uint8_t m[40], f[90]; int ml = rc_build_msg(m, SB.n[M.b[RXB[i].board].sbnode].addr, 0, RXB[i].type, RXB[i].d, RXB[i].dl); env_push_quiet(f, rc_frame(f, m, (size_t) ml, 1)); } }
 static int pair_a, pair_b, pair_rx_mode;
-static void *pair_t(void *arg) { int which = (int) (intptr_t) arg; int e = which ? pair_b : pair_a; int vs[24]; int nv = pair_variants(e, vs);
+/* schedule exploration of a pair: one or two VALID argument classes per call keep the threads short */
+static int pair_single;
+static int e1_variants(int e, int *out) {
+	int all[24]; int n = pair_variants(e, all); const char *nm = entry_name(e);
+	if (entry_variants(e) > 16) { int k = 0; for (int i = 0; i < n && k < 2 && all[i] != 14 && all[i] != 15; i++) out[k++] = all[i]; return k ? k : 1; }
+	if (n <= 2) { for (int i = 0; i < n; i++) out[i] = all[i]; return n; }
+	int id = strstr(nm, "train") ? 12 : strstr(nm, "point") ? 4 : strstr(nm, "signal") ? 6 : strstr(nm, "peripheral") ? 8 : strstr(nm, "segment") ? 9 : strstr(nm, "reverser") ? 11 : 0;
+	out[0] = id; if (id == 4) { out[1] = 5; return 2; } return 1;
+}
+static void *pair_t(void *arg) { int which = (int) (intptr_t) arg; int e = which ? pair_b : pair_a; int vs[24]; int nv = pair_single ? e1_variants(e, vs) : pair_variants(e, vs);
 	for (int i = 0; i < nv; i++) run_entry(e, vs[i]);
 	if (which && pair_rx_mode == 1) queue_rx_batch();
 	return NULL; }
 static void c10_pair_child(const void *job, size_t n) {
 	vs_dev_t devs[VS_MAXDEV]; int nd; size_t pl; const uint8_t *p = job_parse(job, n, devs, &nd, &pl);
-	int from, count; memcpy(&from, p, 4); memcpy(&count, p + 4, 4); pair_rx_mode = p[8]; int single = p[9];
+	int from, count; memcpy(&from, p, 4); memcpy(&count, p + 4, 4); pair_rx_mode = p[8]; int single = p[9]; pair_single = single;   /* E1 mode */
 	int NE = N_HL + N_LL;
 	hx_child_begin(devs, nd, single ? 1 : 0, NULL, 0, 0);
 	san_tsan_ignore(1);
